@@ -185,6 +185,8 @@ pub fn named4() -> Vec<Cfg> {
         cfg("dep-before-dependent", vec![t("a", B, &["b"]), t("b", B, &["c"]), t("c", B, &["d"]), t("d", B, &[])], &["d", "a"]),
         cfg("dependent-before-dep", vec![t("a", B, &["b"]), t("b", B, &["c"]), t("c", B, &["d"]), t("d", B, &[])], &["a", "d"]),
         cfg("build-over-aggregate-of-two-builds", vec![t("a", B, &["b"]), t("b", A, &["c", "d"]), t("c", B, &[]), t("d", B, &[])], &["a"]),
+        // an aggregate of builds with two requesters, one of them further away (late requester of a ready aggregate)
+        cfg("aggregate-diamond", vec![t("a", A, &["c", "b"]), t("b", A, &["c"]), t("c", A, &["d"]), t("d", B, &[])], &["a"]),
         cfg("service-over-aggregate-of-build-and-service", vec![t("a", S, &["b"]), t("b", A, &["c", "d"]), t("c", B, &[]), t("d", S, &[])], &["a"]),
     ]
 }
